@@ -48,7 +48,7 @@ func init() {
 	engine.Register(&engine.Check{
 		ID:    "C13",
 		Level: "exploration",
-		Rule: "base messages (alphabet singles and pairs) × insertion positions (front, every middle slot, end, two insertions) × all 240 unsupported type codes 1..32, 49..255 × body lengths {0..8,255,256,1020..1024} (thorough: all 0..1024) × contents {0x00, 0xFF, look-alike of another payload} × critical flag × reserved generic-header bits, built by the independent encoder so the chain is relinked independently; also inside an SK plaintext and with the critical flag on implemented payloads. " +
+		Rule: "base messages (alphabet singles and pairs) × insertion positions (front, every middle slot, end, two insertions) × all 240 unsupported type codes 1..32, 49..255 × body lengths {0..8,255,256,1020..1024} (thorough: 0..64 and the boundary values on every base, all 0..1024 on every 16th base) × contents {0x00, 0xFF, look-alike of another payload} × critical flag × reserved generic-header bits, built by the independent encoder so the chain is relinked independently; also inside an SK plaintext and with the critical flag on implemented payloads. " +
 			"Oracle: critical clear → decodes exactly as the message without the insertions; critical set on an unsupported type → error. distinct_nontrivial = distinct datagrams with an insertion and >= 1 supported payload that decoded",
 		Run: runC13,
 		Replay: func(c *engine.Ctx, raw json.RawMessage) {
@@ -82,11 +82,16 @@ func runC13(c *engine.Ctx) {
 		m    ref.Msg
 	}{"(empty)", ref.Msg{H: univ.BaseHdr}})
 	lens := []int{0, 1, 2, 3, 4, 5, 6, 7, 8, 255, 256, 1020, 1021, 1022, 1023, 1024}
+	var allLens []int
+	for i := 0; i <= 1024; i++ {
+		allLens = append(allLens, i)
+	}
 	if c.Thorough() {
 		lens = nil
-		for i := 0; i <= 1024; i++ {
+		for i := 0; i <= 64; i++ {
 			lens = append(lens, i)
 		}
+		lens = append(lens, 255, 256, 1020, 1021, 1022, 1023, 1024)
 	}
 	var types []uint8
 	for t := 1; t <= 255; t++ {
@@ -114,7 +119,11 @@ func runC13(c *engine.Ctx) {
 				if !c.Mine() {
 					continue
 				}
-				for li, l := range lens {
+				ll := lens
+				if c.Thorough() && bi%16 == 0 {
+					ll = allLens // every body length 0..1024 on every 16th base message
+				}
+				for li, l := range ll {
 					full := l <= 4 || (c.Thorough() && l%97 == 0)
 					for content := 0; content < 3; content++ {
 						for _, crit := range []bool{false, true} {
